@@ -1,4 +1,6 @@
 import LcmProofs.SimPanel
+import LcmProofs.SimPath
+import LcmProofs.EnvPerm
 namespace Lcm
 
 /-! # C03 — simulated states follow the model's law of motion
@@ -51,6 +53,30 @@ theorem C03_next_states_of_agent (m : Model) (P : Params) (V : List (Tensor Ext)
   simp only [periodOut, simulatePeriod]
   rw [List.getD_eq_getElem?_getD, List.getElem?_map, List.getElem?_range hi]
   rfl
+
+/-- the state row of agent `i` in period `t+1`, state by state in declaration order: the value looked up **by
+name** in the list of next states computed from that agent's period-`t` record -/
+theorem C03_states_of_agent_succ (m : Model) (P : Params) (V : List (Tensor Ext)) (init : List (List (Name × Rat)))
+    (draws : Draws) (t i : Nat) (hi : i < init.length) :
+    (statesAt m P V init draws (t + 1)).getD i []
+      = m.states.map fun s =>
+          (s.1, ((((periodOut m P V draws t (statesAt m P V init draws t)).2.getD i []).find? (·.1 == s.1)).map (·.2)).getD 0) := by
+  rw [statesAt_succ]
+  exact rekey_getD m _ i (by rw [periodOut_snd_length, statesAt_length]; exact hi)
+
+/-- looking a name up in a list of (name, value) pairs with distinct names returns that name's own value:
+state `x` receives the value of `next_x`, never of another transition -/
+theorem C03_lookup_own_value (l : List (Name × Rat)) (hnd : (l.map (·.1)).Nodup) (p : Name × Rat) (hp : p ∈ l) :
+    ((l.find? (·.1 == p.1)).map (·.2)).getD 0 = p.2 := by
+  rw [find?_key_of_nodup l hnd p hp]; rfl
+
+/-- the `next_` prefix is stripped: the transition function `next_x` feeds state `x` -/
+theorem C03_prefix_stripped (x : String) : stripNext ("next_" ++ x) = x := by
+  unfold stripNext
+  rw [String.toList_append]
+  have : "next_".toList = ['n', 'e', 'x', 't', '_'] := by decide
+  rw [this]
+  simp
 
 /-- a sound sampler never returns a label of probability zero: if `draw` only returns indices of positive
 entries of the row it is given, the new label of a stochastic state has positive probability in the row
